@@ -11,7 +11,8 @@ Reference (written for this check, ASCII only), from docs/garbage-collection.rst
 docs/configuration.rst, the parse_duration docstring and the project's own tests:
   duration  [0-9]+ , optional single space, unit in {s second seconds day days mo month months
             year years} (case-insensitive); day=86400 s, month=31 d, year=365 d
-  date      YYYY-MM-DD, a real calendar date; value = UTC midnight starting that day
+  date      YYYY-MM-DD, a real calendar date; value = UTC midnight starting that day (the whole date catalogue is
+            parsed again with the process in 5 other time zones: the value must not move)
   size      [0-9]+ , optional single space (configuration.rst: "100 M", "1024 Ki",
             "1048576 B"), optional K M G T P E (x1000^n), optional i (x1024^n instead),
             optional B; case-insensitive
@@ -294,11 +295,47 @@ def _tally(res, prefix, parser, tally, first):
         _note_exc(res, parser, outcome, first[outcome])
 
 
+# The documented value of a date is midnight UTC whatever the time zone the node runs in: dates (and durations, which
+# are pure arithmetic) are parsed again with the process in other zones (POSIX TZ strings, no tzdata needed).
+ZONES = ["EST5EDT,M3.2.0,M11.1.0", "CET-1CEST,M3.5.0,M10.5.0/3", "NZST-12NZDT,M9.5.0,M4.1.0/3", "IST-5:30", "UTC0"]
+
+
+class in_zone(object):
+    def __init__(self, tz):
+        self.tz = tz
+
+    def __enter__(self):
+        import time as _t
+        self.old = os.environ.get("TZ")
+        if self.tz is not None:
+            os.environ["TZ"] = self.tz
+            _t.tzset()
+
+    def __exit__(self, *a):
+        import time as _t
+        if self.tz is not None:
+            if self.old is None:
+                os.environ.pop("TZ", None)
+            else:
+                os.environ["TZ"] = self.old
+            _t.tzset()
+
+
 def _strings_chunk(chunk):
     res = common.Result()
     tallies = {}
     for parser, s in chunk:
-        outcome, bad = judge(parser, s)
+        tz = None
+        if isinstance(parser, tuple):
+            parser, tz = parser
+        with in_zone(tz):
+            outcome, bad = judge(parser, s)
+        if tz is not None:
+            res.count("evaluations")
+            res.count("zone_evaluations")
+            for sig, msg in bad:
+                res.violation(sig + "@TZ", {"kind": "string", "parser": parser, "s": s, "tz": tz}, "with TZ=%s: %s" % (tz, msg))
+            continue
         tally, first = tallies.setdefault(parser, ({}, {}))
         tally[outcome] = tally.get(outcome, 0) + 1
         first.setdefault(outcome, s)
@@ -492,7 +529,8 @@ def _print_and_client_chunk(chunk):
 def replay(case):
     k = case["kind"]
     if k == "string":
-        return judge(case["parser"], case["s"])[1]
+        with in_zone(case.get("tz")):
+            return [(sig + ("@TZ" if case.get("tz") else ""), msg) for sig, msg in judge(case["parser"], case["s"])[1]]
     if k == "print":
         r = _print_chunk([case["n"]])
         return [(v["sig"], v["msg"]) for v in r.violations if v["case"]["SI"] == case["SI"]]
@@ -516,6 +554,8 @@ def run(tier, seed):
         strings = gen()
         sizes[parser] = len(strings)
         items += [(parser, x) for x in strings]
+        if parser == "date":
+            items += [((parser, tz), x) for tz in ZONES for x in strings]
     res.merge(common.pmap(_strings_chunk, items, chunks=32))
     top = 0x110000
     lim = top if tier == "thorough" else 0x10000
